@@ -24,6 +24,53 @@ def site(fi, node=None):
     return 'geomdl/%s.py:%s in %s' % (fi.mod, getattr(node or fi.node, 'lineno', '?'), fi.key)
 
 
+def tk1(m, run):
+    """TK1: every shipped tessellator can be driven by Surface.tessellate - the keywords that method passes to
+    `_tsl_component.tessellate(...)` are accepted by the mesh function the tessellator forwards its **kwargs to (a keyword the mesh
+    function does not take is a TypeError, i.e. no tessellation at all), and a tessellator whose mesh function leaves the vertices'
+    (u, v) unset cannot be used either, because Surface.tessellate re-evaluates every vertex at its stored (u, v)"""
+    st = m.cls('abstract', 'Surface').methods.get('tessellate')
+    calls = [c for c in walk_no_nested(st.node) if isinstance(c, ast.Call) and isinstance(c.func, ast.Attribute) and c.func.attr == 'tessellate'
+             and '_tsl_component' in norm(c.func.value)]
+    if len(calls) != 1:
+        raise AnalysisError('abstract.Surface.tessellate: call of the tessellation component not found')
+    passed = {k.arg for k in calls[0].keywords if k.arg}
+    n = 0
+    for ck in sorted(k for k in m.classes if k[0] == 'tessellate' and k[1] != 'AbstractTessellate'):
+        ci = m.classes[ck]
+        init, tes = ci.methods.get('__init__'), ci.methods.get('tessellate')
+        if init is None or tes is None:
+            continue
+        target = None
+        for a in walk_no_nested(init.node):
+            if isinstance(a, ast.Assign) and norm(a.targets[0]) == 'self._tsl_func':
+                target = m.resolve_callable(init.mod, a.value)
+        fw = [c for c in walk_no_nested(tes.node) if isinstance(c, ast.Call) and norm(c.func) == 'self._tsl_func']
+        if target is None or len(fw) != 1:
+            raise AnalysisError('%s.%s: mesh function / forwarding call not found' % ck)
+        n += 1
+        forwards_all = any(k.arg is None for k in fw[0].keywords)
+        popped = {c.args[0].value for c in walk_no_nested(tes.node) if isinstance(c, ast.Call) and isinstance(c.func, ast.Attribute) and c.func.attr == 'pop'
+                  and c.args and isinstance(c.args[0], ast.Constant)}
+        explicit = {k.arg for k in fw[0].keywords if k.arg}
+        reach = ((passed - popped) if forwards_all else set()) | explicit
+        a = target.node.args
+        names = {x.arg for x in a.args + a.kwonlyargs}
+        missing = sorted(reach - names) if a.kwarg is None else []
+        run.ob('TK1.tessellator-accepts-what-the-surface-passes', '%s.%s -> %s' % (ck[0], ck[1], target.key), not missing,
+               '%s accepts %s' % (target.key, sorted(reach)) if not missing else
+               'Surface.tessellate passes %s, %s.tessellate forwards them, but %s takes neither %s nor **kwargs: tessellating a surface with this '
+               'tessellator raises TypeError' % (sorted(passed), ck[1], target.key, missing), site(tes, fw[0]))
+        sets_uv = any(isinstance(x, ast.Assign) and isinstance(x.targets[0], ast.Attribute) and x.targets[0].attr == 'uv' for x in ast.walk(target.node)) or \
+            any(isinstance(k, ast.keyword) and k.arg == 'uv' for x in ast.walk(target.node) if isinstance(x, ast.Call) for k in x.keywords)
+        run.ob('TK1.mesh-vertices-carry-parameters', '%s.%s -> %s' % (ck[0], ck[1], target.key), sets_uv,
+               'vertices get their (u, v)' if sets_uv else
+               '%s never sets the (u, v) of its vertices: Surface.tessellate re-evaluates every vertex at its stored (u, v), which is the default (0, 0) for all of them'
+               % target.key, site(target))
+    if n < 3:
+        raise AnalysisError('TK1: only %d tessellators found' % n)
+
+
 def off1(m, run):
     """SurfaceContainer.tessellate numbers the aggregate by adding running offsets to the ids of the elements' own vertex / face
     objects (an in-place, cumulative update of objects owned by the elements' tessellators).  That is sound only if every element
@@ -100,6 +147,7 @@ def check(m, run):
     c17.ag5(m, run)
     wn1(m, run)
     off1(m, run)
+    tk1(m, run)
     c12_mod = __import__('sa.checks.c12', fromlist=['iv7'])
     c12_mod.iv7(m, run)
     from . import c12
